@@ -254,6 +254,44 @@ fn known(r: &RC) -> Option<C> {
     }
 }
 
+/// value and relative tolerance of an operand that is exactly known or known within a tolerance
+fn approx(r: &RC) -> Option<(C, f64)> {
+    match r.q {
+        QC::NumEq => Some((r.v, 0.0)),
+        QC::Rel(t) => Some((r.v, t)),
+        QC::Unspec => None,
+    }
+}
+/// at least one operand is only known within a tolerance (and both are known at all)
+fn derived(a: &RC, b: &RC) -> bool {
+    approx(a).is_some() && approx(b).is_some() && (known(a).is_none() || known(b).is_none())
+}
+/// An exact operation (+ - * and /) over operands that are themselves within a tolerance: the bound
+/// that follows from the operands' bounds (normwise), no verdict under cancellation or extreme sizes.
+fn combine(op: Op, a: &RC, b: &RC) -> RC {
+    let ((x, tx), (y, ty)) = (approx(a).unwrap(), approx(b).unwrap());
+    let sized = |z: C| finite(z) && cabs(z) > 1e-100 && cabs(z) < 1e100;
+    if !sized(x) || !sized(y) {
+        return unspec();
+    }
+    let (v, t) = match op {
+        Op::Add | Op::Sub => {
+            let v = if op == Op::Add { cadd(x, y) } else { csub(x, y) };
+            if cabs(v) < 1e-3 * (cabs(x) + cabs(y)) {
+                return unspec();
+            }
+            (v, (tx * cabs(x) + ty * cabs(y)) / cabs(v) + 1e-15)
+        }
+        Op::Mul => (cmul(x, y), tx + ty + tx * ty + 1e-15),
+        Op::Div => (cdiv(x, y), (tx + ty) * 1.01 + 1e-12),
+        _ => return unspec(),
+    };
+    if !sized(v) || t > 1e-6 {
+        return unspec();
+    }
+    RC { v, q: QC::Rel(t) }
+}
+
 pub fn lit(t: &str) -> f64 {
     rf::parse_lit(t)
 }
@@ -267,10 +305,16 @@ pub fn eval(ast: &Ast, ph: C) -> RC {
         Ast::E => ex((rf::E, 0.0)),
         Ast::Ans => ex(ph),
         Ast::Group(Br::Round, a) | Ast::Pos(a) => eval(a, ph),
-        Ast::Neg(a) => match known(&eval(a, ph)) {
-            Some(v) => ex(cneg(v)),
-            None => unspec(),
-        },
+        Ast::Neg(a) => {
+            let r = eval(a, ph);
+            match (known(&r), approx(&r)) {
+                (Some(v), _) => ex(cneg(v)),
+                (None, Some((v, t))) => RC { v: cneg(v), q: QC::Rel(t) },
+                _ => unspec(),
+            }
+        }
+        Ast::Bin(op @ (Op::Add | Op::Sub | Op::Mul | Op::Div), a, b) if derived(&eval(a, ph), &eval(b, ph)) => combine(*op, &eval(a, ph), &eval(b, ph)),
+        Ast::IMul(a, b) if derived(&eval(a, ph), &eval(b, ph)) => combine(Op::Mul, &eval(a, ph), &eval(b, ph)),
         Ast::Bin(op, a, b) => match (known(&eval(a, ph)), known(&eval(b, ph))) {
             (Some(x), Some(y)) => match op {
                 Op::Add => ex(cadd(x, y)),
